@@ -52,10 +52,9 @@ def gate_rule(ctx, R):
         dim = const_usize(ctx, dimpath)
         eb = ExprBuilder(b)
         rows = []
-        for d in b.defs().get(0, []):
-            if d[0] != 'assign' or d[1] not in b.live_blocks():
-                continue
-            conds = path_conditions(b, d[1])
+        from lib import expand_conditions
+        for d, conds in [(d, cv) for d in b.defs().get(0, []) if d[0] == 'assign' and d[1] in b.live_blocks()
+                         for cv in expand_conditions(b, path_conditions(b, d[1]))]:
             inv = None
             gate = None
             for c in conds:
